@@ -35,7 +35,7 @@ def run_property(prop, tier, seed):
     # ------------------------------------------------------------- E2
     if e2:
         mods = sorted({j["module"] for j in e2} | {m for j in e2 for m in j.get("extra_modules", [])})
-        hooks += M.inject(repo, mods, known_ids, spec.get("intree_macros", False))
+        hooks += M.inject(repo, mods, known_ids, spec.get("intree_macros", False), spec.get("grammar_deviations", False))
         mirpath, mir_s = M.dump_mir(scratch)
         with cf.ThreadPoolExecutor(max_workers=2) as ex:
             fut_native = ex.submit(M.build_native, scratch, False)
@@ -233,7 +233,7 @@ def replay(prop, path):
     h = e["harness"]
     job = [j for j in spec["jobs"] if j["harness"] == h][0]
     if job["engine"] == "E2":
-        M.inject(repo, sorted({job["module"]} | set(job.get("extra_modules", []))), known_ids, PROPS[prop].get("intree_macros", False))
+        M.inject(repo, sorted({job["module"]} | set(job.get("extra_modules", []))), known_ids, PROPS[prop].get("intree_macros", False), PROPS[prop].get("grammar_deviations", False))
         ok = True
         for rel in (False, True):
             exe = M.build_native(scratch, rel)
